@@ -2,7 +2,6 @@
    bus.  The opcode tables are GenDispatch.v (regenerated from dispatch.go on every run).  No proofs here. *)
 From V.lib Require Import Bits.
 From V.model Require Import Uop Alu.
-From V.gen Require Import GenDispatch.
 
 Inductive fault_kind := FExit | FCrash.
 Inductive akind := AFetch | ARead | AWrite.
@@ -104,7 +103,20 @@ Fixpoint lookup_early (op : N) (t : list (N * (cond * nat * nat))) : option (con
   | (k, e) :: t' => if k =? op then Some e else lookup_early op t'
   end.
 
+(* the opcode tables of dispatch.go: two pages of micro-operation lists, the conditional early exits and the three
+   interrupt sequences.  The model is parametric in them; CpuTables.gen_tables is the instance regenerated from the Go
+   source on every run. *)
+Record tables := mkTables {
+  t_normal : list (list uop);
+  t_prefix : list (list uop);
+  t_early : list (N * (cond * nat * nat));
+  t_vshort : list uop;
+  t_short : list uop;
+  t_long : list uop
+}.
+
 Section Bus.
+  Variable T : tables.
   Variable B : Type.
   Variable bus_rd : B -> N -> B * N.          (* Mapper.Read *)
   Variable bus_wr : B -> N -> N -> B.         (* Mapper.Write *)
@@ -255,8 +267,8 @@ Section Bus.
   Definition check_interrupts (s : cpu) (b : B) : option (list uop) * cpu :=
     if bus_pending b =? 0 then (None, s)
     else if bus_ime b then
-      (if halted s then (Some longInterrupt, set_halted false s) else (Some shortInterrupt, s))
-    else if halted s then (Some veryShortInterrupt, set_halted false s)
+      (if halted s then (Some (t_long T), set_halted false s) else (Some (t_short T), s))
+    else if halted s then (Some (t_vshort T), set_halted false s)
     else (None, s).
 
   Definition fetch (s : cpu) (b : B) : cpu * B :=
@@ -267,10 +279,10 @@ Section Bus.
       if op =? 203 then
         let pc1 := add16 (pc s0) 1 in
         let op2 := snd (bus_rd b1 pc1) in
-        (set_early None (set_cur (nth (N.to_nat op2) prefix_table []) (set_cyc 0%nat (set_pc pc1 s0))),
+        (set_early None (set_cur (nth (N.to_nat op2) (t_prefix T) []) (set_cyc 0%nat (set_pc pc1 s0))),
          fst (bus_rd b1 pc1))
       else
-        (set_early (lookup_early op early_table) (set_cur (nth (N.to_nat op) normal_table []) (set_cyc 0%nat s0)), b1) in
+        (set_early (lookup_early op (t_early T)) (set_cur (nth (N.to_nat op) (t_normal T) []) (set_cyc 0%nat s0)), b1) in
     let s1 := set_m8b 0 (set_m8a 0 (set_u8b 0 (set_u8a 0 (fst sb)))) in
     let s2 := if haltbug s1 then set_haltbug false s1 else set_pc (add16 (pc s1) 1) s1 in
     (s2, snd sb).
